@@ -735,6 +735,20 @@ void op_SUBST_G(World& w, const Op&)
    w.note("general-substitution");
 }
 
+// One query of a general substitution against the model, made in the middle of the history (a finite map answers
+// from its current bindings whatever was asked before).
+static void query_general(World& w, const impl::General_substitution* s, const Parameter& p, const char* when)
+{
+   auto& m = w.gsubst_model[s];
+   const Expr& got = (*static_cast<const Substitution*>(s))[p];
+   auto it = m.find(&p);
+   const Expr& want = it != m.end() ? *it->second : static_cast<const Expr&>(p);
+   if (&got != &want)
+      w.findings.fail(it != m.end() ? "C16:general:inside-domain" : "C16:general:outside-domain", std::string("a general substitution answered the wrong expression (") + when + ")");
+   w.findings.count(it != m.end() ? "queries_inside_domain" : "queries_outside_domain");
+   w.findings.count("interleaved_queries");
+}
+
 void op_SUBST_BIND(World& w, const Op& op)
 {
    if (w.gsubsts.empty() || w.params.empty()) return;
@@ -742,11 +756,17 @@ void op_SUBST_BIND(World& w, const Op& op)
    auto& p = *World::pick(w.params, op.b);
    auto& e = *World::pick(w.exprs, op.c);
    auto& m = w.gsubst_model[s];
+   // queries interleaved with the bindings: the same parameter just before and just after it is (re)bound, optionally
+   // with another parameter asked in between
+   if (op.d % 4 != 0) query_general(w, s, p, "before binding");
+   if (op.d % 4 == 2) query_general(w, s, *World::pick(w.params, op.e), "other parameter before binding");
    if (m.count(&p)) w.findings.count("rebindings");
    auto& back = s->subst(p, e);
    if (&back != s) w.findings.fail("C16:subst-returns-other", "General_substitution::subst did not return the substitution itself");
    m[&p] = &e;
    w.findings.count("bindings");
+   if (op.d % 4 == 3) query_general(w, s, *World::pick(w.params, op.e), "other parameter after binding");
+   if (op.d % 8 != 0) query_general(w, s, p, "after binding");
    w.note("subst.bind");
 }
 
